@@ -80,6 +80,10 @@ func HandleInsertStmt(p *InsertPlan, stmt *ast.InsertStmt) error {
 
 	// 全局表直接生成 SQL 返回
 	if isGlobalTable {
+		// the statement names one table only: drop the database and table
+		// qualifiers of its column names, as the sharded path does, instead of
+		// sending the logical database name to the physical databases
+		removeInsertColumnQualifiers(p)
 		if err := generateGlobalShardingSQLs(p); err != nil {
 			return fmt.Errorf("generate global table sharding sqls error: %v", err)
 		}
@@ -223,6 +227,20 @@ func handleInsertColumnNames(p *InsertPlan) error {
 		return fmt.Errorf("sharding column not found")
 	}
 	return nil
+}
+
+// removeInsertColumnQualifiers removes the database and table qualifiers of the
+// column list, the SET columns and the ON DUPLICATE KEY UPDATE columns.
+func removeInsertColumnQualifiers(p *InsertPlan) {
+	for _, col := range p.stmt.Columns {
+		removeSchemaAndTableInfoInColumnName(col)
+	}
+	for _, assignment := range p.stmt.Setlist {
+		removeSchemaAndTableInfoInColumnName(assignment.Column)
+	}
+	for _, assignment := range p.stmt.OnDuplicate {
+		removeSchemaAndTableInfoInColumnName(assignment.Column)
+	}
 }
 
 // 只有一个表, 直接去掉DB名和表名, 就不需要加装饰器了
